@@ -339,6 +339,9 @@ func (e *env) checkQueryIsolated(t failer, q mQuery, history func() string, exp 
 		}
 	}
 	if _, _, msg := compare(exp, got, gotIv, qiv); msg != "" {
+		if err != nil {
+			msg += "\n  (the query returned the error: " + err.Error() + ")"
+		}
 		t.Fatalf("query answer differs from the model\n  sql: %s\n  %s\n  got:\n%s  model:\n%s%s", sqlText, msg, indent(got.String()), indent(exp.String()), history())
 	}
 }
@@ -371,9 +374,10 @@ func TestConcurrentFlushQuery(t *testing.T) {
 	if os.Getenv("VERIF_TIER") == "thorough" {
 		rounds, writes = 16, 4000
 	}
+	if raceEnabled {
+		writes /= 3 // the detector slows every query down by an order of magnitude
+	}
 	rapid.Check(t, func(t *rapid.T) {
-		seed := rapid.IntRange(0, 1<<20).Draw(t, "roundSeed")
-		_ = seed
 		for round := 0; round < rounds; round++ {
 			stressRound(t, round, writes, rapid.IntRange(2, 6).Draw(t, "nSlots"), rapid.IntRange(1, 3).Draw(t, "nSeries"), rapid.SampledFrom([]int64{10_000, 1_000, 60_000}).Draw(t, "interval"))
 		}
